@@ -270,20 +270,32 @@ def run_item(item):
     # ---- histories over the 'current function' register -------------------------------------
     net, fs, sampler = make_net([3], "tanh", 1, 1, 2, True, seed=3)
     tgrid = sampler.sample_points().as_tensor[:, 0]
-    f = {1: fn_values([0.3], tgrid), 2: fn_values([0.8, 0.1], tgrid)}
+    f = {1: fn_values([0.3], tgrid), 2: fn_values([0.8, 0.1], tgrid), 3: fn_values([0.55], tgrid)}
     x0 = locations(3, 1)
-    ops = [("fix", 1), ("fix", 2), ("forward", None), ("forward", 1), ("forward", 2)]
+    # fixobj: the SAME tensor object is handed over again after its content was overwritten in place;
+    # perturb_fixobj: ... after the branch weights were changed in place (as an optimizer step does)
+    ops = [("fix", 1), ("fix", 2), ("forward", None), ("forward", 1), ("forward", 2), ("fixobj", 1), ("fixobj", 3), ("perturb_fixobj", 1)]
     n = 0
     for L_ in range(1, BOUNDS[tier]["history"] + 1):
         for hist in itertools.product(ops, repeat=L_):
             net2, _, _ = make_net([3], "tanh", 1, 1, 2, True, seed=3)
             cur = None
+            OBJ = torch.zeros_like(f[1])
             res["states"].append(str(hist))
             ok = True
             for op, arg in hist:
                 res["transitions"] += 1
                 if op == "fix":
                     net2.fix_branch_input(f[arg].clone())
+                    cur = arg
+                    continue
+                if op in ("fixobj", "perturb_fixobj"):
+                    with torch.no_grad():
+                        if op == "perturb_fixobj":
+                            lin0 = [m_ for m_ in net2.branch.sequential if isinstance(m_, nn.Linear)][0]
+                            lin0.weight.mul_(1.25)
+                        OBJ.copy_(f[arg])
+                    net2.fix_branch_input(OBJ)
                     cur = arg
                     continue
                 if arg is not None:
